@@ -319,6 +319,148 @@ def runGprecs (sem : Sem) (c : Codec Input Item Node Bytes Date Content) (st : S
 
 end
 
+
+/-! ### The same mechanism, method by method
+
+  What the translator tie (CRProps/T15.lean) compares the CURRENT source with: the functional part
+  (`handleFilePath`; `withOwnPrecision`, `buildFor`, `writeStep` above) and, for the methods whose contribution to the
+  property is *which* state they touch, the ordered table of their state accesses `(kind, target, what)`. -/
+
+/-- `FileWriter._handle_file_path` (interface.py:153-172) as a function of mode, file existence and the user's answer:
+    the name to write to; `""` = leave the file alone; or `input()` raised.  The default name is
+    `str(scenario_id) + suffix` for both formats. -/
+def handleFilePath {Input Item Node Bytes Date Content : Type} (c : Codec Input Item Node Bytes Date Content)
+    (st : Proc Input Node Bytes Date) (w : Writer Input Node Date) (file : Option String) (mode : Mode) (a : Answer) :
+    Res String :=
+  let name := resolveName c w .full file
+  if name ≠ "" && (st.fs name).isSome && askRaises mode a then .error .other else
+  if name ≠ "" && (st.fs name).isSome && keepExisting mode a then .ok "" else .ok name
+
+namespace Tables
+
+/-- `(kind, target, what)` of one state access. -/
+abbrev Access := String × String × String
+
+/-- `FileWriter.__init__` (interface.py:34-58): the inputs are stored (explicit argument, else the scenario's), the writer's own precision is stored and the module global is assigned THE SAME argument (`Op.new`: `gprec := prec`, `Writer.prec := prec`) -/
+def ctorAccesses : List Access :=
+  [("assert", "", "not (author is None and scenario.author is None)"),
+   ("assert", "", "not (affiliation is None and scenario.affiliation is None)"),
+   ("assert", "", "not (source is None and scenario.source is None)"),
+   ("assert", "", "not (tags is None and scenario.tags is None)"),
+   ("assign", "self.scenario", "scenario"),
+   ("assign", "self.planning_problem_set", "planning_problem_set"),
+   ("assign", "self.author", "author ?? scenario.author"),
+   ("assign", "self.affiliation", "affiliation ?? scenario.affiliation"),
+   ("assign", "self.source", "source ?? scenario.source"),
+   ("assign", "self.location", "location ?? scenario.location"),
+   ("assign", "self.tags", "tags ?? scenario.tags"),
+   ("assign", "self._decimal_precision", "decimal_precision"),
+   ("assign", "precision.decimals", "decimal_precision")]
+
+/-- `XMLFileWriter.__init__`: all eight arguments go to `FileWriter.__init__` in order; an empty root element (`Writer.root := []`, `date := none`) -/
+def xmlCtorAccesses : List Access :=
+  [("super", "__init__", "scenario, planning_problem_set, author, affiliation, source, tags, location, decimal_precision"),
+   ("assign", "self._root_node", "etree.Element('commonRoad')")]
+
+/-- `ProtobufFileWriter.__init__`: the same with an empty message -/
+def pbCtorAccesses : List Access :=
+  [("super", "__init__", "scenario, planning_problem_set, author, affiliation, source, tags, location, decimal_precision"),
+   ("assign", "self._commonroad_msg", "commonroad_pb2.CommonRoad()")]
+
+/-- `CommonRoadFileWriter.__init__`: the format selects the class, the eight remaining arguments are passed on in order (`Op.new fmt inp prec`) -/
+def facadeCtorAccesses : List Access :=
+  [("assign", "self._file_format", "file_format"),
+   ("assign", "self._file_writer", "None"),
+   ("if", "", "file_format == FileFormat.XML"),
+   ("assign", "self._file_writer", "XMLFileWriter(scenario, planning_problem_set, author, affiliation, source, tags, location, decimal_precision)"),
+   ("else", "", ""),
+   ("if", "", "file_format == FileFormat.PROTOBUF"),
+   ("assign", "self._file_writer", "ProtobufFileWriter(scenario, planning_problem_set, author, affiliation, source, tags, location, decimal_precision)"),
+   ("else", "", ""),
+   ("endif", "", ""),
+   ("endif", "", "")]
+
+/-- `XMLFileWriter._write_header`: attributes of the writer's OWN root element are set (overwritten) from its own inputs; `date` from the clock (`writeHeader`) -/
+def xmlHeaderAccesses : List Access :=
+  [("set", "self._root_node", "timeStepSize"),
+   ("set", "self._root_node", "commonRoadVersion"),
+   ("set", "self._root_node", "author"),
+   ("set", "self._root_node", "affiliation"),
+   ("set", "self._root_node", "source"),
+   ("if", "", "self.scenario.scenario_id"),
+   ("set", "self._root_node", "benchmarkID"),
+   ("else", "", ""),
+   ("endif", "", ""),
+   ("except", "", "Exception"),
+   ("set", "self._root_node", "benchmarkID"),
+   ("set-from-clock", "self._root_node", "date")]
+
+/-- `XMLFileWriter._add_all_objects_from_scenario`: `Codec.scItems` in this order, one `create_node` each, appended to the writer's OWN root element (`appendItems … (c.scItems inp)`) -/
+def xmlScenarioAccesses : List Access :=
+  [("if", "", "self.location is not None"),
+   ("append", "self._root_node", "LocationXMLNode.create_node(self.location)"),
+   ("else", "", ""),
+   ("append", "self._root_node", "LocationXMLNode.create_node(Location())"),
+   ("endif", "", ""),
+   ("append", "self._root_node", "TagXMLNode.create_node(self.tags)"),
+   ("append", "self._root_node", "LaneletXMLNode.create_node(each self.scenario.lanelet_network.lanelets)"),
+   ("append", "self._root_node", "TrafficSignXMLNode.create_node(each self.scenario.lanelet_network.traffic_signs)"),
+   ("append", "self._root_node", "TrafficLightXMLNode.create_node(each self.scenario.lanelet_network.traffic_lights)"),
+   ("append", "self._root_node", "IntersectionXMLNode.create_node(each self.scenario.lanelet_network.intersections)"),
+   ("append", "self._root_node", "ObstacleXMLNode.create_node(each self.scenario.obstacles)")]
+
+/-- `XMLFileWriter._add_all_planning_problems_from_planning_problem_set` (`appendItems … (c.ppItems inp)`) -/
+def xmlPlanningAccesses : List Access :=
+  [("append", "self._root_node", "PlanningProblemXMLNode.create_node(each self.planning_problem_set.planning_problem_dict.values())")]
+
+/-- `ProtobufFileWriter._write_header`: the information message (with the date of the call) replaces the one of the writer's OWN message -/
+def pbHeaderAccesses : List Access :=
+  [("CopyFrom", "self._commonroad_msg.information", "ScenarioInformationMessage.create_message(self.scenario.scenario_id.scenario_version, str(self.scenario.scenario_id), self._author, self._affiliation, self._source, self.scenario.dt)")]
+
+/-- `ProtobufFileWriter._add_all_objects_from_scenario`: singular fields are replaced, repeated fields of the writer's OWN message are appended to -/
+def pbScenarioAccesses : List Access :=
+  [("CopyFrom", "self._commonroad_msg.scenario_tags", "ScenarioTagsMessage.create_message(list(self.tags))"),
+   ("if", "", "self.location is not None"),
+   ("bind", "location_msg", "LocationMessage.create_message(self.location)"),
+   ("else", "", ""),
+   ("bind", "location_msg", "LocationMessage.create_message(Location())"),
+   ("endif", "", ""),
+   ("CopyFrom", "self._commonroad_msg.location", "location_msg"),
+   ("append", "self._commonroad_msg.lanelets", "LaneletMessage.create_message(each self.scenario.lanelet_network.lanelets)"),
+   ("append", "self._commonroad_msg.traffic_signs", "TrafficSignMessage.create_message(each self.scenario.lanelet_network.traffic_signs)"),
+   ("append", "self._commonroad_msg.traffic_lights", "TrafficLightMessage.create_message(each self.scenario.lanelet_network.traffic_lights)"),
+   ("append", "self._commonroad_msg.intersections", "IntersectionMessage.create_message(each self.scenario.lanelet_network.intersections)"),
+   ("append", "self._commonroad_msg.static_obstacles", "StaticObstacleMessage.create_message(each self.scenario.static_obstacles)"),
+   ("append", "self._commonroad_msg.dynamic_obstacles", "DynamicObstacleMessage.create_message(each self.scenario.dynamic_obstacles)"),
+   ("append", "self._commonroad_msg.environment_obstacles", "EnvironmentObstacleMessage.create_message(each self.scenario.environment_obstacle)"),
+   ("append", "self._commonroad_msg.phantom_obstacles", "PhantomObstacleMessage.create_message(each self.scenario.phantom_obstacle)")]
+
+/-- `ProtobufFileWriter._add_all_planning_problems_from_planning_problem_set` -/
+def pbPlanningAccesses : List Access :=
+  [("append", "self._commonroad_msg.planning_problems", "PlanningProblemMessage.create_message(each self.planning_problem_set.planning_problem_dict.values())")]
+
+/-- `OverwriteExistingFile`: `Mode.ask | always | skip` by member name and value (interface.py:17-24). -/
+def overwriteModes : List (String × Int) := [("ASK_USER_INPUT", 0), ("ALWAYS", 1), ("SKIP", 2)]
+
+/-- The six methods that fill a document. -/
+def documentMethods : List (List Access) :=
+  [xmlHeaderAccesses, xmlScenarioAccesses, xmlPlanningAccesses, pbHeaderAccesses, pbScenarioAccesses, pbPlanningAccesses]
+
+/-- The writer's own document: the root element / the message and its fields. -/
+def ownDocument : List String :=
+  ["self._root_node", "self._commonroad_msg.information", "self._commonroad_msg.scenario_tags", "self._commonroad_msg.location",
+   "self._commonroad_msg.lanelets", "self._commonroad_msg.traffic_signs", "self._commonroad_msg.traffic_lights",
+   "self._commonroad_msg.intersections", "self._commonroad_msg.static_obstacles", "self._commonroad_msg.dynamic_obstacles",
+   "self._commonroad_msg.environment_obstacles", "self._commonroad_msg.phantom_obstacles", "self._commonroad_msg.planning_problems"]
+
+/-- An access that changes an object: only the writer's own document may be its target; a statement the extraction
+    does not know (`other`) is not admitted. -/
+def writesOwnDocument (a : Access) : Bool :=
+  if a.1 = "set" || a.1 = "set-from-clock" || a.1 = "append" || a.1 = "CopyFrom" || a.1 = "extend" || a.1 = "assign" then ownDocument.contains a.2.1
+  else a.1 ≠ "other"
+
+end Tables
+
 /-! ### The symbolic codec used by the driver (and by the witnesses of the two former defects)
 
   Content is abstracted to *what the harness can recognise in a real file*: which input it was made from, the date
